@@ -64,7 +64,6 @@ UNSAFE_PROPS = ["C01", "C05", "C14"]
 _API = ["C01", "C02", "C04", "C05", "C07", "C08", "C09"]
 PINNED = [
     ("src/scheduler/queue_state.rs", "FutureId::new", ["C07", "C08", "C13"], "process-wide unique ids"),
-    ("src/scheduler/desync_scheduler.rs", "Scheduler::new", ["C10", "C17"], "empty schedule, no threads, the initial maximum"),
     ("src/scheduler/desync_scheduler.rs", "initial_max_threads", ["C17"], "a positive constant / cpu count"),
     ("src/scheduler/desync_scheduler.rs", "scheduler", _API, "the one global scheduler"),
 ]
@@ -110,8 +109,8 @@ BOUNDED = {
 
 _NOTE = ("Safety content proved for all queue states, queue contents and lengths, future ids and thread counts; thread interleavings are "
          "over-approximated by the rely condition at every lock() (A1, A10), not enumerated. Trusted: the shims for std/futures (A5, A6), the "
-         "statement rewrites listed in trusted_base (A7, A12), the 4 functions outside every contract whose assumed behaviour is stated in specs/table.py PINNED "
-         "and whose text is fingerprinted (S-pin, A13: Scheduler::new, initial_max_threads, the lazy_static behind scheduler(), the atomic counter of FutureId::new), Verus/z3 (A3). ")
+         "statement rewrites listed in trusted_base (A7, A12), the 3 functions outside every contract whose assumed behaviour is stated in specs/table.py PINNED "
+         "and whose text is fingerprinted (S-pin, A13: initial_max_threads, the lazy_static behind scheduler(), the atomic counter of FutureId::new), Verus/z3 (A3). ")
 _LIVE = "The liveness half ('eventually runs / returns / is woken') is NOT proved; it is reduced to the safety obligations P1-P4 of DESIGN.md 3.6 (A11). "
 
 
